@@ -131,9 +131,10 @@ def free_axes(e, acc=None):
 VALUE_SCHEMES = ('distinct', 'distinct', 'small', 'special')
 
 
-def gen_pattern(rng, types, *, default=0.0, scheme='distinct', start_id=1, share=0.35, dtype='float'):
-    """a random well-typed pattern structure over the typed shape `types` (values not encoded)"""
-    pool = Pool(rng, share, start_id)
+def gen_pattern(rng, types, *, default=0.0, scheme='distinct', start_id=1, share=0.35, dtype='float', pool=None):
+    """a random well-typed pattern structure over the typed shape `types` (values not encoded); with `pool`, the
+    physical axes are drawn from (and added to) that typed pool, so that several tensors can SHARE physical axes"""
+    pool = pool if pool is not None else Pool(rng, share, start_id)
     vs = [gen_axis(rng, ty, pool) for ty in types]
     fa = {}
     for e in vs:
@@ -158,13 +159,16 @@ def gen_pattern(rng, types, *, default=0.0, scheme='distinct', start_id=1, share
 
 
 # ------------------------------------------------------------- real objects
-def build(struct, dtype=None, layout='contig'):
-    """real PatternedTensor for a structure (values are python floats/bools in struct['ph'])"""
+def build(struct, dtype=None, layout='contig', axes=None):
+    """real PatternedTensor for a structure (values are python floats/bools in struct['ph']); `axes` (id -> PhysicalAxis)
+    is shared between calls when several tensors are to use the SAME PhysicalAxis objects"""
     import torch
     from fggs.indices import PatternedTensor, PhysicalAxis, SumAxis, productAxis, ProductAxis, unitAxis
     if dtype is None:
         dtype = torch.float64
-    ax = {p['id']: PhysicalAxis(p['n']) for p in struct['ps']}
+    if axes is None:
+        axes = {}
+    ax = {p['id']: axes.setdefault(p['id'], PhysicalAxis(p['n'])) for p in struct['ps']}
 
     def term(e):
         if e['k'] == 'P':
